@@ -2,6 +2,8 @@
 
 package parser
 
+import "github.com/DDP-Projekt/Kompilierer/src/ast"
+
 // Observation points for the verification harness (build tag verif only).
 // VerifHook, when set, receives one event per loop iteration / protocol step of the parser.
 // pid identifies the parser instance (imports and generic instantiations create nested parsers).
@@ -23,6 +25,34 @@ func verifTrace(p *parser, kind string, a, b int) {
 		verifIDs[p] = id
 	}
 	VerifHook(kind, id, a, b)
+}
+
+// VerifInstHook, when set, receives one event per step of the instantiation cache of generic functions
+// (InstantiateGenericFunction): kind "hit" | "new" | "done", the key of the instantiation (function name and
+// parameter types), the module whose list is used, the number of errors of a finished instantiation and the
+// keys in that list after the step.
+var VerifInstHook func(kind, fn, module, key string, nerr int, cache []string)
+
+func verifInstKey(decl *ast.FuncDecl) string {
+	key := decl.Name() + "("
+	for i, param := range decl.Parameters {
+		if i > 0 {
+			key += ", "
+		}
+		key += param.Type.String()
+	}
+	return key + ")"
+}
+
+func verifInst(kind string, genericFunc *ast.FuncDecl, module *ast.Module, decl *ast.FuncDecl, nerr int) {
+	if VerifInstHook == nil {
+		return
+	}
+	cache := make([]string, 0, 4)
+	for _, inst := range genericFunc.Generic.Instantiations[module] {
+		cache = append(cache, verifInstKey(inst))
+	}
+	VerifInstHook(kind, genericFunc.Name(), module.FileName, verifInstKey(decl), nerr, cache)
 }
 
 // forget all parser identities (called by the harness between inputs)
